@@ -158,8 +158,15 @@ fn check_256(c: &Ctx, rep: &mut Report, x: &BigInt, y: &BigInt, d: &BigInt, plai
         let inexact = !d.is_zero() && !(&p % d).is_zero();
         rep.case(format!("i256/{}/{}/big={}/inexact={}", RN[r as usize], sign_pat(x, y, d), p.bits() > 127, inexact));
         let (xi, yi, di) = (to_i256(e, x), to_i256(e, y), to_i256(e, d));
-        let got = checked_mul_div_i256(e, xi.clone(), yi.clone(), di.clone(), rounding(r)).map(|v| from_i256(&v));
+        // called directly (no contract frame): a host trap surfaces as a Rust panic of this process
+        let got = std::panic::catch_unwind(std::panic::AssertUnwindSafe(|| checked_mul_div_i256(e, xi.clone(), yi.clone(), di.clone(), rounding(r)).map(|v| from_i256(&v))));
         rep.evaluations += 1;
+        let Ok(got) = got else {
+            rep.check("checked_i256", false, &format!("C12/diff/checked_mul_div_i256/{}/trapped-although-product-fits", RN[r as usize]), || {
+                format!("x={x} y={y} d={d} rounding={}: the call trapped ({}), exact result {ex:?}", RN[r as usize], crate::last_panic())
+            });
+            continue;
+        };
         rep.check("checked_i256", got == ex, &format!("C12/diff/checked_mul_div_i256/{}", RN[r as usize]), || {
             format!("x={x} y={y} d={d} rounding={} got={got:?} want={ex:?}", RN[r as usize])
         });
